@@ -42,7 +42,13 @@ partial def tyOf? : Sexp → Option Ty
   | .list [.atom "override", t] => do pure (.override (← tyOf? t))
   | .list [.atom "spanned", t] => do pure (.spanned (← tyOf? t))
   | .list [.atom "withorig", t] => do pure (.withOrig (← tyOf? t))
-  | .list [.atom "probe", m, f] => do pure (.probe (← m.asNat?) (← f.asBool?))
+  | .list [.atom "probe", m, f] => do
+      let mode ← match f with
+        | .atom "false" => some 0
+        | .atom "true" => some 1
+        | .atom "bundle" => some 2
+        | _ => none
+      pure (.probe (← m.asNat?) mode)
   | .atom "syn-expr" => some .synExpr
   | .atom "syn-path" => some .synPath
   | .atom "syn-ident" => some .synIdent
@@ -117,6 +123,24 @@ def answer (c : Sexp) : String :=
           | .list [.atom "nested", n] =>
               (match nestedOf? n with
                | some n => (h.fromNestedMeta n).toAnswer
+               | none => "bad-case")
+          | .list [.atom "word"] => h.fromWord.toAnswer
+          | .list (.atom "list" :: items) =>
+              (match items.mapM nestedOf? with
+               | some xs => (h.fromList xs).toAnswer
+               | none => "bad-case")
+          | .list [.atom "string", .str s] => (h.fromString s).toAnswer
+          | .list [.atom "boolv", b] => (match b.asBool? with
+               | some b => (h.fromBool b).toAnswer
+               | none => "bad-case")
+          | .list [.atom "charv", c] => (match c.asNat? with
+               | some n => (h.fromChar (Char.ofNat n)).toAnswer
+               | none => "bad-case")
+          | .list [.atom "value", l] => (match litOf? l with
+               | some l => (h.fromValue l).toAnswer
+               | none => "bad-case")
+          | .list [.atom "expr", e] => (match exprOf? e with
+               | some e => (h.fromExpr e).toAnswer
                | none => "bad-case")
           | .list [.atom "none"] =>
               (match h.fromNone with
